@@ -38,5 +38,5 @@ def run(tier, replay):
     return modelcheck.run(PROP, tier, replay, make_plan, extra=uflib.run,
                           explanation="seeded random interleavings of new_/insert_/define_/equate_ with closes; every mutator "
                                       "event carries a full query burst (iterators, point queries over all ids, are_equal on all pairs); "
-                                      "extra: every Unification call sequence of UnionFind.tla's scope (3 elements, 5 calls; thorough 4/6) "
+                                      "extra: every Unification call sequence of UnionFind.tla's scope (3 elements, 5 calls; thorough 4/5) "
                                       "and seeded random sequences on 12 elements replayed on the real type, validated by UFTrace")
